@@ -29,6 +29,42 @@ pub fn case(tape: &[u32]) -> CaseOutcome {
     let (aux, main) = split_tape(tape);
     let mut a = Tape::new(&aux);
     let mut t = Tape::new(&main);
+    if a.chance(1, 12) {
+        // scoped variables that refer to each other, possibly in a cycle: the modes may disagree
+        // on what they report (strict reads before the definition exists), neither may panic
+        let dsl = super::c05::reference_cycles(&mut t);
+        let file = match load(&dsl) {
+            Err(p) => return CaseOutcome::Fail(Failure::new(format!("C02:load-{}", p.signature()), p.message, json!({"dsl": dsl}))),
+            Ok(Err(_)) => return CaseOutcome::Discard("generated program rejected by the loader"),
+            Ok(Ok(f)) => f,
+        };
+        let sources = pick_sources(&mut a, 1);
+        let mut labels = vec!["reference-cycles".to_string()];
+        for source in &sources {
+            let tree = pysrc::parse(source);
+            let index = TreeIndex::new(&tree);
+            let mut classes = vec![];
+            for lazy in [false, true] {
+                let (r, _) = run(&file, &tree, &index, source, &Default::default(), &ExecOpts { lazy, debug: None });
+                match r {
+                    LibRun::Panic(p) => {
+                        return CaseOutcome::Fail(Failure::new(format!("C02:{}:{}", if lazy { "lazy" } else { "strict" }, p.signature()), format!("{} execution panicked: {}", if lazy { "lazy" } else { "strict" }, p.message), json!({"dsl": dsl, "source": source})));
+                    }
+                    LibRun::Err(e) => classes.push(variant_name(root_cause(&e)).to_string()),
+                    LibRun::Ok(_) => classes.push("ok".to_string()),
+                    _ => classes.push("other".to_string()),
+                }
+            }
+            labels.push(format!("cycles:strict={}:lazy={}", classes[0], classes[1]));
+        }
+        let mut report = CaseReport::default();
+        report.evaluations = 2 * sources.len() as u64;
+        report.fingerprint = fingerprint(&(&dsl, &sources));
+        report.nontrivial = labels.iter().any(|l| l.contains("RecursivelyDefined"));
+        report.labels = labels;
+        report.sample = Some(json!({"dsl": dsl, "sources": sources}));
+        return CaseOutcome::Pass(report);
+    }
     let mut cfg = GenCfg::fragment();
     cfg.fault = a.chance(1, 4);
     cfg.scoped_heavy = a.chance(1, 2);
@@ -81,12 +117,18 @@ pub fn case(tape: &[u32]) -> CaseOutcome {
         let index = TreeIndex::new(&tree);
         let d = |extra| detail(dsl, source, &program.gen.globals, extra);
         let model = model_run(&program.gen.prog, &tree, &index, source, &program.gen.globals, Default::default());
-        if let crate::interp::Outcome::Inconclusive(why) = &model.outcome {
-            report.counters.push((format!("inconclusive:{}", why.split(':').next().unwrap_or("")), 1));
-            continue;
-        }
-        let (strict, _) = run_capped(&file, &tree, &index, source, &program.gen.globals, &ExecOpts { lazy: false, debug: None }, model.poll_cap());
-        let (lazy, _) = run_capped(&file, &tree, &index, source, &program.gen.globals, &ExecOpts { lazy: true, debug: None }, model.poll_cap());
+        // the comparison of the two modes does not need the reference run: where that run is
+        // inconclusive (e.g. a scan arm with a `\b` assertion that matches the empty string
+        // without being selected) only its poll bound is replaced by the fixed one
+        let cap = match &model.outcome {
+            crate::interp::Outcome::Inconclusive(why) => {
+                report.counters.push((format!("reference-inconclusive:{}", why.split(':').next().unwrap_or("")), 1));
+                POLL_CAP
+            }
+            _ => model.poll_cap(),
+        };
+        let (strict, _) = run_capped(&file, &tree, &index, source, &program.gen.globals, &ExecOpts { lazy: false, debug: None }, cap);
+        let (lazy, _) = run_capped(&file, &tree, &index, source, &program.gen.globals, &ExecOpts { lazy: true, debug: None }, cap);
         report.evaluations += 2;
         for (mode, r) in [("strict", &strict), ("lazy", &lazy)] {
             match r {
